@@ -889,10 +889,16 @@ impl ContinuityStore {
                 origin,
             },
         };
+        #[cfg(rip_verif)]
+        rip_kernel::verif::point("store.log_append");
         self.event_log
             .append(&event)
             .map_err(|err| format!("append continuity_branched: {err}"))?;
+        #[cfg(rip_verif)]
+        rip_kernel::verif::point("store.cache_append");
         self.stream_cache.append_best_effort(&event);
+        #[cfg(rip_verif)]
+        rip_kernel::verif::point("store.publish");
         let _ = self.sender.send(event.clone());
 
         self.next_seq
@@ -1016,10 +1022,16 @@ impl ContinuityStore {
                 origin,
             },
         };
+        #[cfg(rip_verif)]
+        rip_kernel::verif::point("store.log_append");
         self.event_log
             .append(&event)
             .map_err(|err| format!("append continuity_handoff_created: {err}"))?;
+        #[cfg(rip_verif)]
+        rip_kernel::verif::point("store.cache_append");
         self.stream_cache.append_best_effort(&event);
+        #[cfg(rip_verif)]
+        rip_kernel::verif::point("store.publish");
         let _ = self.sender.send(event.clone());
 
         self.next_seq
@@ -2924,6 +2936,8 @@ impl ContinuityStore {
         origin: String,
         content: String,
     ) -> Result<String, String> {
+        #[cfg(rip_verif)]
+        rip_kernel::verif::point("store.lock");
         let mut next_seq = self.next_seq.lock().expect("continuity seq mutex");
         let seq = match next_seq.get(continuity_id).cloned() {
             Some(seq) => seq,
@@ -2948,13 +2962,21 @@ impl ContinuityStore {
                 content,
             },
         };
+        #[cfg(rip_verif)]
+        rip_kernel::verif::point("store.log_append");
         self.event_log
             .append(&event)
             .map_err(|err| format!("append continuity message: {err}"))?;
+        #[cfg(rip_verif)]
+        rip_kernel::verif::point("store.cache_append");
         self.stream_cache.append_best_effort(&event);
+        #[cfg(rip_verif)]
+        rip_kernel::verif::point("store.publish");
         let _ = self.sender.send(event.clone());
 
         // Only advance after a successful append to avoid gaps in the truth log.
+        #[cfg(rip_verif)]
+        rip_kernel::verif::point("store.bump");
         next_seq.insert(continuity_id.to_string(), seq + 1);
         Ok(message_id)
     }
@@ -2967,6 +2989,8 @@ impl ContinuityStore {
         actor_id: String,
         origin: String,
     ) -> Result<String, String> {
+        #[cfg(rip_verif)]
+        rip_kernel::verif::point("store.lock");
         let mut next_seq = self.next_seq.lock().expect("continuity seq mutex");
         let seq = match next_seq.get(continuity_id).cloned() {
             Some(seq) => seq,
@@ -2992,12 +3016,20 @@ impl ContinuityStore {
                 origin: Some(origin),
             },
         };
+        #[cfg(rip_verif)]
+        rip_kernel::verif::point("store.log_append");
         self.event_log
             .append(&event)
             .map_err(|err| format!("append continuity run spawned: {err}"))?;
+        #[cfg(rip_verif)]
+        rip_kernel::verif::point("store.cache_append");
         self.stream_cache.append_best_effort(&event);
+        #[cfg(rip_verif)]
+        rip_kernel::verif::point("store.publish");
         let _ = self.sender.send(event.clone());
 
+        #[cfg(rip_verif)]
+        rip_kernel::verif::point("store.bump");
         next_seq.insert(continuity_id.to_string(), seq + 1);
         Ok(id)
     }
@@ -3007,6 +3039,8 @@ impl ContinuityStore {
         continuity_id: &str,
         payload: ContextSelectionDecidedPayload,
     ) -> Result<String, String> {
+        #[cfg(rip_verif)]
+        rip_kernel::verif::point("store.lock");
         let mut next_seq = self.next_seq.lock().expect("continuity seq mutex");
         let seq = match next_seq.get(continuity_id).cloned() {
             Some(seq) => seq,
@@ -3039,12 +3073,20 @@ impl ContinuityStore {
                 origin: payload.origin,
             },
         };
+        #[cfg(rip_verif)]
+        rip_kernel::verif::point("store.log_append");
         self.event_log
             .append(&event)
             .map_err(|err| format!("append continuity context selection decided: {err}"))?;
+        #[cfg(rip_verif)]
+        rip_kernel::verif::point("store.cache_append");
         self.stream_cache.append_best_effort(&event);
+        #[cfg(rip_verif)]
+        rip_kernel::verif::point("store.publish");
         let _ = self.sender.send(event.clone());
 
+        #[cfg(rip_verif)]
+        rip_kernel::verif::point("store.bump");
         next_seq.insert(continuity_id.to_string(), seq + 1);
         Ok(id)
     }
@@ -3054,6 +3096,8 @@ impl ContinuityStore {
         continuity_id: &str,
         payload: ContextCompiledPayload,
     ) -> Result<String, String> {
+        #[cfg(rip_verif)]
+        rip_kernel::verif::point("store.lock");
         let mut next_seq = self.next_seq.lock().expect("continuity seq mutex");
         let seq = match next_seq.get(continuity_id).cloned() {
             Some(seq) => seq,
@@ -3083,12 +3127,20 @@ impl ContinuityStore {
                 origin: payload.origin,
             },
         };
+        #[cfg(rip_verif)]
+        rip_kernel::verif::point("store.log_append");
         self.event_log
             .append(&event)
             .map_err(|err| format!("append continuity context compiled: {err}"))?;
+        #[cfg(rip_verif)]
+        rip_kernel::verif::point("store.cache_append");
         self.stream_cache.append_best_effort(&event);
+        #[cfg(rip_verif)]
+        rip_kernel::verif::point("store.publish");
         let _ = self.sender.send(event.clone());
 
+        #[cfg(rip_verif)]
+        rip_kernel::verif::point("store.bump");
         next_seq.insert(continuity_id.to_string(), seq + 1);
         Ok(id)
     }
@@ -3098,6 +3150,8 @@ impl ContinuityStore {
         continuity_id: &str,
         payload: ProviderCursorUpdatedPayload,
     ) -> Result<String, String> {
+        #[cfg(rip_verif)]
+        rip_kernel::verif::point("store.lock");
         let mut next_seq = self.next_seq.lock().expect("continuity seq mutex");
         let seq = match next_seq.get(continuity_id).cloned() {
             Some(seq) => seq,
@@ -3128,12 +3182,20 @@ impl ContinuityStore {
                 origin: payload.origin,
             },
         };
+        #[cfg(rip_verif)]
+        rip_kernel::verif::point("store.log_append");
         self.event_log
             .append(&event)
             .map_err(|err| format!("append continuity provider cursor updated: {err}"))?;
+        #[cfg(rip_verif)]
+        rip_kernel::verif::point("store.cache_append");
         self.stream_cache.append_best_effort(&event);
+        #[cfg(rip_verif)]
+        rip_kernel::verif::point("store.publish");
         let _ = self.sender.send(event.clone());
 
+        #[cfg(rip_verif)]
+        rip_kernel::verif::point("store.bump");
         next_seq.insert(continuity_id.to_string(), seq + 1);
         Ok(id)
     }
@@ -3143,6 +3205,8 @@ impl ContinuityStore {
         continuity_id: &str,
         payload: CompactionCheckpointCreatedPayload,
     ) -> Result<String, String> {
+        #[cfg(rip_verif)]
+        rip_kernel::verif::point("store.lock");
         let mut next_seq = self.next_seq.lock().expect("continuity seq mutex");
         let seq = match next_seq.get(continuity_id).cloned() {
             Some(seq) => seq,
@@ -3174,12 +3238,20 @@ impl ContinuityStore {
                 origin: payload.origin,
             },
         };
+        #[cfg(rip_verif)]
+        rip_kernel::verif::point("store.log_append");
         self.event_log
             .append(&event)
             .map_err(|err| format!("append continuity compaction checkpoint: {err}"))?;
+        #[cfg(rip_verif)]
+        rip_kernel::verif::point("store.cache_append");
         self.stream_cache.append_best_effort(&event);
+        #[cfg(rip_verif)]
+        rip_kernel::verif::point("store.publish");
         let _ = self.sender.send(event.clone());
 
+        #[cfg(rip_verif)]
+        rip_kernel::verif::point("store.bump");
         next_seq.insert(continuity_id.to_string(), seq + 1);
         Ok(checkpoint_id)
     }
@@ -3189,6 +3261,8 @@ impl ContinuityStore {
         continuity_id: &str,
         payload: CompactionAutoScheduleDecidedPayload,
     ) -> Result<String, String> {
+        #[cfg(rip_verif)]
+        rip_kernel::verif::point("store.lock");
         let mut next_seq = self.next_seq.lock().expect("continuity seq mutex");
         let seq = match next_seq.get(continuity_id).cloned() {
             Some(seq) => seq,
@@ -3225,12 +3299,20 @@ impl ContinuityStore {
                 origin: payload.origin,
             },
         };
+        #[cfg(rip_verif)]
+        rip_kernel::verif::point("store.log_append");
         self.event_log
             .append(&event)
             .map_err(|err| format!("append continuity compaction schedule decided: {err}"))?;
+        #[cfg(rip_verif)]
+        rip_kernel::verif::point("store.cache_append");
         self.stream_cache.append_best_effort(&event);
+        #[cfg(rip_verif)]
+        rip_kernel::verif::point("store.publish");
         let _ = self.sender.send(event.clone());
 
+        #[cfg(rip_verif)]
+        rip_kernel::verif::point("store.bump");
         next_seq.insert(continuity_id.to_string(), seq + 1);
         Ok(id)
     }
@@ -3244,6 +3326,8 @@ impl ContinuityStore {
         actor_id: String,
         origin: String,
     ) -> Result<String, String> {
+        #[cfg(rip_verif)]
+        rip_kernel::verif::point("store.lock");
         let mut next_seq = self.next_seq.lock().expect("continuity seq mutex");
         let seq = match next_seq.get(continuity_id).cloned() {
             Some(seq) => seq,
@@ -3270,12 +3354,20 @@ impl ContinuityStore {
                 origin,
             },
         };
+        #[cfg(rip_verif)]
+        rip_kernel::verif::point("store.log_append");
         self.event_log
             .append(&event)
             .map_err(|err| format!("append continuity job spawned: {err}"))?;
+        #[cfg(rip_verif)]
+        rip_kernel::verif::point("store.cache_append");
         self.stream_cache.append_best_effort(&event);
+        #[cfg(rip_verif)]
+        rip_kernel::verif::point("store.publish");
         let _ = self.sender.send(event.clone());
 
+        #[cfg(rip_verif)]
+        rip_kernel::verif::point("store.bump");
         next_seq.insert(continuity_id.to_string(), seq + 1);
         Ok(id)
     }
@@ -3285,6 +3377,8 @@ impl ContinuityStore {
         continuity_id: &str,
         payload: JobEndedPayload,
     ) -> Result<String, String> {
+        #[cfg(rip_verif)]
+        rip_kernel::verif::point("store.lock");
         let mut next_seq = self.next_seq.lock().expect("continuity seq mutex");
         let seq = match next_seq.get(continuity_id).cloned() {
             Some(seq) => seq,
@@ -3313,12 +3407,20 @@ impl ContinuityStore {
                 origin: payload.origin,
             },
         };
+        #[cfg(rip_verif)]
+        rip_kernel::verif::point("store.log_append");
         self.event_log
             .append(&event)
             .map_err(|err| format!("append continuity job ended: {err}"))?;
+        #[cfg(rip_verif)]
+        rip_kernel::verif::point("store.cache_append");
         self.stream_cache.append_best_effort(&event);
+        #[cfg(rip_verif)]
+        rip_kernel::verif::point("store.publish");
         let _ = self.sender.send(event.clone());
 
+        #[cfg(rip_verif)]
+        rip_kernel::verif::point("store.bump");
         next_seq.insert(continuity_id.to_string(), seq + 1);
         Ok(id)
     }
@@ -3368,6 +3470,8 @@ impl ContinuityStore {
         actor_id: String,
         origin: String,
     ) -> Result<String, String> {
+        #[cfg(rip_verif)]
+        rip_kernel::verif::point("store.lock");
         let mut next_seq = self.next_seq.lock().expect("continuity seq mutex");
         let seq = match next_seq.get(continuity_id).cloned() {
             Some(seq) => seq,
@@ -3394,12 +3498,20 @@ impl ContinuityStore {
                 origin: Some(origin),
             },
         };
+        #[cfg(rip_verif)]
+        rip_kernel::verif::point("store.log_append");
         self.event_log
             .append(&event)
             .map_err(|err| format!("append continuity run ended: {err}"))?;
+        #[cfg(rip_verif)]
+        rip_kernel::verif::point("store.cache_append");
         self.stream_cache.append_best_effort(&event);
+        #[cfg(rip_verif)]
+        rip_kernel::verif::point("store.publish");
         let _ = self.sender.send(event.clone());
 
+        #[cfg(rip_verif)]
+        rip_kernel::verif::point("store.bump");
         next_seq.insert(continuity_id.to_string(), seq + 1);
         Ok(id)
     }
@@ -3411,6 +3523,8 @@ impl ContinuityStore {
         effects: ToolSideEffects,
     ) -> Result<String, String> {
         let continuity_id = run.continuity_id.as_str();
+        #[cfg(rip_verif)]
+        rip_kernel::verif::point("store.lock");
         let mut next_seq = self.next_seq.lock().expect("continuity seq mutex");
         let seq = match next_seq.get(continuity_id).cloned() {
             Some(seq) => seq,
@@ -3439,12 +3553,20 @@ impl ContinuityStore {
                 origin: run.origin.clone(),
             },
         };
+        #[cfg(rip_verif)]
+        rip_kernel::verif::point("store.log_append");
         self.event_log
             .append(&event)
             .map_err(|err| format!("append continuity tool side effects: {err}"))?;
+        #[cfg(rip_verif)]
+        rip_kernel::verif::point("store.cache_append");
         self.stream_cache.append_best_effort(&event);
+        #[cfg(rip_verif)]
+        rip_kernel::verif::point("store.publish");
         let _ = self.sender.send(event.clone());
 
+        #[cfg(rip_verif)]
+        rip_kernel::verif::point("store.bump");
         next_seq.insert(continuity_id.to_string(), seq + 1);
         Ok(id)
     }
@@ -3502,10 +3624,16 @@ impl ContinuityStore {
                 title: title.clone(),
             },
         };
+        #[cfg(rip_verif)]
+        rip_kernel::verif::point("store.log_append");
         self.event_log
             .append(&created)
             .map_err(|err| format!("append continuity_created: {err}"))?;
+        #[cfg(rip_verif)]
+        rip_kernel::verif::point("store.cache_append");
         self.stream_cache.append_best_effort(&created);
+        #[cfg(rip_verif)]
+        rip_kernel::verif::point("store.publish");
         let _ = self.sender.send(created.clone());
 
         {
